@@ -319,11 +319,16 @@ func (w *World) Assoc(peer string) []pfcpx.Dgram {
 	m := message.NewAssociationSetupRequest(seq, ie.NewNodeID(p.NodeID, "", ""), ie.NewRecoveryTimeStamp(p.TS))
 
 	w.connBefore = "unknown"
-	if w.SnapEvery {
+	if w.SnapEvery && w.ConnTruth == "" {
 		// the agent's own view of datapath connectivity immediately before the request (C12)
 		if sn := w.snapJSON(); sn["has"] == true {
 			w.connBefore = map[bool]string{true: "yes", false: "no"}[sn["connected"] == true]
 		}
+	}
+
+	if w.ConnTruth == "down" {
+		// what the harness knows: it closed the datapath server (and with it every connection of the agent) itself
+		w.connBefore = "no"
 	}
 
 	defer func() { w.connBefore = "" }()
